@@ -113,6 +113,52 @@ theorem wsEOLLoop_spec (f : Nat) (s : Bytes) (i : Nat) (e : Bool) (hi : i ≤ s.
       simp only [Bool.and_eq_true, List.isEmpty_iff] at he
       simp [he.2] at hs; exact ⟨he.1, by omega⟩
 
+theorem wsEOLLoop_ge (f : Nat) (s : Bytes) (i j : Nat) (e e' : Bool)
+    (h : wsEOLLoop f s i e = some (j, e')) : i ≤ j := by
+  induction f generalizing i e with
+  | zero => simp [wsEOLLoop] at h
+  | succ f ih =>
+    unfold wsEOLLoop at h
+    have hs := allowed_snd isWsEol s i
+    generalize allowed isWsEol s i = a at *
+    obtain ⟨v, k⟩ := a
+    simp only at hs h
+    split at h
+    · rename_i hp
+      have hp' : peek s k = some 37 := by simpa using hp
+      split at h
+      · rename_i w k2 hc
+        have := comment_consumes s k hp' w k2 hc
+        have := ih _ _ h
+        omega
+      · cases h
+    · cases h; omega
+
+/-- if the loop ends where it started, nothing was consumed and the `is_empty` flag is unchanged -/
+theorem wsEOLLoop_empty (f : Nat) (s : Bytes) (i j : Nat) (e' : Bool)
+    (h : wsEOLLoop f s i true = some (j, e')) (hj : j = i) : e' = true := by
+  cases f with
+  | zero => simp [wsEOLLoop] at h
+  | succ f =>
+    unfold wsEOLLoop at h
+    have hs := allowed_snd isWsEol s i
+    generalize allowed isWsEol s i = a at *
+    obtain ⟨v, k⟩ := a
+    simp only at hs h
+    split at h
+    · rename_i hp
+      have hp' : peek s k = some 37 := by simpa using hp
+      split at h
+      · rename_i w k2 hc
+        have := comment_consumes s k hp' w k2 hc
+        have := wsEOLLoop_ge _ _ _ _ _ _ h
+        omega
+      · cases h
+    · cases h
+      have : v.length = 0 := by omega
+      have : v = [] := List.length_eq_zero_iff.mp this
+      simp [this]
+
 theorem wsEOL_loc (e : Bool) : LocOK (wsEOL e) := by
   intro s i hi
   unfold wsEOL
@@ -268,6 +314,20 @@ theorem nameP_loc : LocOK nameP := by
     split
     · exact lerr
     · exact lok (by omega) (by omega)
+
+/-- a successful name parse consumes at least the '/' -/
+theorem nameP_consumes (s : Bytes) (i : Nat) (v : Located Bytes) (c : Nat) (h : nameP s i = (.ok v, c)) : i < c := by
+  unfold nameP at h
+  split at h
+  · cases h
+  · have h2 := allowed_snd (fun b => !isNameTerm b) s (i + 1)
+    unfold untilB at h
+    generalize allowed (fun b => !isNameTerm b) s (i + 1) = a at *
+    obtain ⟨span, j⟩ := a
+    simp only at h h2
+    split at h
+    · cases h
+    · cases h; omega
 
 theorem operatorP_loc : LocOK operatorP := by
   intro s i hi
